@@ -294,12 +294,12 @@ def run(ctx):  # noqa: C901, PLR0912, PLR0915
            f'node just sent, and its looped-back copy is handled as a foreign message', where=f'{NT}.NetworkingThread',
            witness=ends)
     # a datagram leaves the queue only when it is due
-    gs = cfg_of(rs)
+    gs = cfg_of(expand_aliases(rs))   # `queue = self._send_queue` written out
     gets = [n for n, c in gs.nodes_calling('get') if 'self._send_queue' in unparse(c.func)]
     snd = gs.nodes_calling('_send_msg')
     due = 'self._send_queue.queue[0].send_time <= time.time()'
     from engine.pathcond import worlds_of
-    w = worlds_of(gs, extra_atoms=(due,))
+    w = worlds_of(gs, extra_atoms=(due,), symbolic=True)   # a named condition (`is_due = ...`) is written out, too
     ok = bool(gets) and bool(snd)
     for n in gets + [x for x, _ in snd]:
         imp, _w = w.implies(w.cond(n), due)   # guard clause, else branch, `>` or `<=`: all the same truth table
